@@ -9,7 +9,7 @@ import ast
 import itertools
 
 from ..absval import AbsRaise, ClassVal, Closure, Env, Interp, Native, Obj, Stub
-from ..astq import arg, canon, ext_names, global_names, inside, is_name, loc, names_in, real_body, stmt_of
+from ..astq import arg, canon, handler_classes, in_body, ext_names, global_names, inside, is_name, loc, names_in, real_body, stmt_of
 from ..model import AnalysisError, Func, head, norm
 from . import roles
 from . import engine as E
@@ -242,6 +242,8 @@ def check(ctx):
     from .extra import rule_result_slots, rule_kwargs_positional_only
     ctx.run(rule_result_slots, "C02.B4")
     ctx.run(rule_kwargs_positional_only, "C02.B7")
+    ctx.rule("C02.B9", "arbitrary call functions: a callable is never required to be hashable - wherever a user-supplied call function reaches a memoised helper (lru_cache / cache), the call is guarded by a TypeError fallback to the unmemoised computation")
+    ctx.run(rule_user_callables_need_not_hash, "C02.B9")
     # ---------------------------------------------------------------- B5  (guarded values: independent of if/IfExp spelling)
     run = rr.run
     gr = E.guarded_returns(run)
@@ -367,3 +369,78 @@ def check(ctx):
     ctx.ob("C02.B6", f"{bu[0].short}/exact-length", not bad, loc(bu[0]),
            f"returns the tuple of the first `length` items and raises unless exactly `length` items were drawn ({n_eval} cases: lists and dicts)" if not bad else
            f"builtin unpack misbehaves for (kind, length, available, raised, result) = {bad[:3]}: getitem(t, index) must index the drawn items positionally")
+
+
+
+# ------------------------------------------------------------------------------------------------ C02.B9
+_MEMO = {"lru_cache", "cache"}
+
+
+def _memoised_callables(m):
+    """{(module, name): description} for defs decorated with lru_cache/cache and for module-level `X = lru_cache(..)(f)` wrappers."""
+    out = {}
+    for f in m.funcs.values():
+        if f.parent is None and f.cls is None and set(f.decorator_names()) & _MEMO:
+            out[(f.module, f.name)] = f
+    for mod in m.modules.values():
+        for st in mod.tree.body:
+            if isinstance(st, ast.Assign) and len(st.targets) == 1 and isinstance(st.targets[0], ast.Name) and isinstance(st.value, ast.Call):
+                c = st.value
+                head_ = c.func.func if isinstance(c.func, ast.Call) else c.func
+                if norm(head_).split(".")[-1] in _MEMO and (isinstance(c.func, ast.Call) or c.args):
+                    out[(mod, st.targets[0].id)] = st
+    return out
+
+
+def rule_user_callables_need_not_hash(ctx, rid):
+    m = ctx.model
+    memo = _memoised_callables(m)
+    call_cls = m.one_class("Call", "B9")
+
+    def user_fn(f, e, depth=0, seen=None):
+        """May expression `e` in function `f` be the user's call function?  (`<call>.fn`, or a parameter that receives one.)"""
+        seen = seen if seen is not None else set()
+        if isinstance(e, ast.Attribute) and e.attr == "fn":
+            return True
+        if isinstance(e, ast.Name) and e.id in f.params and depth < 4 and (f, e.id) not in seen:
+            seen.add((f, e.id))
+            # public entry points that take the callable from the user
+            if f.cls is not None and f.cls.name == "Plan" and e.id in f.pos_params[1:3]:
+                return True
+            idx = f.pos_params.index(e.id) if e.id in f.pos_params else None
+            for caller, call in m.callers.get(f, ()):
+                off = 1 if (f.cls is not None and isinstance(call.func, ast.Attribute)) else 0
+                a = arg(call, (idx - off) if idx is not None else None, e.id)
+                if a is not None and user_fn(caller, a, depth + 1, seen):
+                    return True
+        return False
+    n = 0
+    for f in m.funcs.values():
+        if f.module.name.startswith("uberjob._testing"):
+            continue
+        for c in f.own_calls():
+            target = None
+            if isinstance(c.func, ast.Name) and (f.module, c.func.id) in memo and m.binding_scope(f, c.func.id) in (None, f.module):
+                target = memo[(f.module, c.func.id)]
+            else:
+                for g in m.callee_funcs(f, c):
+                    if (g.module, g.name) in memo and memo[(g.module, g.name)] is g:
+                        target = g
+            if target is None or not c.args:
+                continue
+            if isinstance(target, Func) and f is target:
+                continue  # the memoised function calling itself on a derived value
+            if not any(user_fn(f, a) for a in c.args):
+                continue
+            n += 1
+            guarded = False
+            for t in [x for x in f.own_nodes() if isinstance(x, ast.Try)]:
+                if in_body(f.module, c, t, "body"):
+                    for h in t.handlers:
+                        if h.type is None or set(handler_classes(h)) & {"TypeError", "Exception", "BaseException"}:
+                            guarded = True
+            ctx.ob(rid, f"{f.short}/memoised-on-user-callable", guarded, loc(f, c),
+                   "the memoised lookup on a user-supplied callable has a TypeError fallback" if guarded else
+                   f"`{norm(c)[:60]}` hashes a user-supplied call function (memoised helper): a callable that defines __eq__ without __hash__ "
+                   f"- a perfectly good call function - makes plan.call / run raise TypeError: unhashable type", norm(c)[:100])
+    ctx.floor(rid, "memoised lookups that can receive a user-supplied callable", n, 1)
